@@ -3,6 +3,7 @@ C02 — the belt hypotheses of `Laws` hold for the executable instance (C01 belt
 `kwp_len`, `kwp_inv` from the C01 theorems about belt-WBL, `hash_len` by unfolding.
 -/
 import Bee2V.C01.PropsWbl
+import Bee2V.C01.PropsLen
 import Bee2V.C02.Inst
 namespace Bee2V.C02
 
@@ -34,5 +35,9 @@ theorem belt_wbl_injective (θ a b : Bytes) (ha : 32 ≤ a.length) (hb : 32 ≤ 
   unfold beltWbl at h
   refine ⟨?_, hla⟩
   rw [← hda, ← hdb, h]
+
+/-- `Laws.hash_len` for belt: the hash of the belt model has 32 octets for every message (C01: `belt_hash_length`) -/
+theorem belt_hash_len (m : Bytes) : (beltHash m).length = 32 :=
+  Bee2V.C01.belt_hash_length m
 
 end Bee2V.C02
